@@ -747,6 +747,10 @@ def check_tabulate(case):
 
     order = list(range(n))
     mode = case["mode"]
+    if mode == "iter-exact-stop" and label in ("UT1", "TDB"):
+        # (date arithmetic on a UT1 / TDB label costs 1-2 us per step - the library keeps such readings through a float
+        # day count: whether start + (n - 1) steps still is <= stop is not decided by any listed property)
+        mode = "iter"
     orb0 = jpl.get_orbit(name, date_of(case["origin"]))
     dt_step = timedelta(seconds=step)
     half = timedelta(seconds=step / 2.0)
